@@ -80,7 +80,8 @@ NOTHING = {"photon": "none", "pixel": "none", "signal": "none", "image": "none",
 EVERYTHING = {"photon": "3d", "pixel": "set", "signal": "set", "image": "u16", "charge": "clusters", "scene": "one",
               "data": "nested", "phase": "set"}
 PALETTES = ["all", "none", "multiwl", "setters"]
-APD_PALETTES = ["ctor-common-prv", "ctor-gain-common", "set-apd-gain", "set-apd-prv", "set-apd-common"]
+APD_PALETTES = ["ctor-common-prv", "ctor-gain-common", "set-apd-gain", "set-apd-prv", "set-apd-common",
+                "set-apd-common-lowbias", "set-apd-prv-lowbias"]
 
 
 def _seed():
@@ -164,6 +165,12 @@ def build_detector(kind, palette):
         det.characteristics.pixel_reset_voltage = 5.0
     elif palette == "set-apd-common":
         det.characteristics.common_voltage = -6.0
+    elif palette == "set-apd-common-lowbias":
+        # a bias (reset voltage - common voltage) in the range where the avalanche gain saturates at 1: the two voltages
+        # are the information, the gain does not determine them
+        det.characteristics.common_voltage = det.characteristics.pixel_reset_voltage - 2.0
+    elif palette == "set-apd-prv-lowbias":
+        det.characteristics.pixel_reset_voltage = det.characteristics.common_voltage + 1.5
     return det
 
 
